@@ -145,11 +145,14 @@ theorem normGen_sorted {g : Graph} (hv : validGraph g = true) (hso : StartsSorte
 
 /-! ### the theorems -/
 
-/-- Statement of `Theorems.ms_roundtrip_names`. -/
-theorem ms_roundtrip_names (c : NumCodec) (sa : Growth → String) {g : Graph} (hv : validGraph g = true)
-    (hx : MsExpressible g = true) (hcs : ConstSizes g = true) (hpt : PulsesTame g = true)
-    {N0 : Q} (hN : 0 < N0) {samples : Option (List Int)} (hs : samplesOk g samples = true)
-    {toks : List (Tok Growth)} (htoks : toMs g N0 samples = .ok toks) (hc : CodecCovers c toks) :
+/-- `ms_roundtrip_names` from acceptance (`hacc`) and the round trip without names (`hrt`) -/
+theorem ms_roundtrip_names_of (c : NumCodec) (sa : Growth → String) {g : Graph} (hv : validGraph g = true)
+    {N0 : Q} {toks : List (Tok Growth)}
+    (hacc : ∃ mg, fromMs (renderG c sa toks) N0 none = .ok mg ∧ mg.graph = MsAcc.docGraph mg.table mg.doc)
+    (hrt : ∀ mg, fromMs (renderG c sa toks) N0 none = .ok mg →
+      ∃ sem rs gs, msSem (renderG c sa toks) N0 = .ok sem ∧ resultSem mg = .ok rs
+        ∧ graphSem (inGenerations (normalizeProportions g)) none = .ok gs
+        ∧ semEquiv sem rs = true ∧ SemRefines sem gs ∧ SemRefines rs gs) :
     ∃ mg mg' sem rs gs, fromMs (renderG c sa toks) N0 none = .ok mg
       ∧ fromMs (renderG c sa toks) N0 (some (g.demes.map (·.name))) = .ok mg'
       ∧ mg'.graph = renameDemes mg.graph (nameMap (g.demes.map (·.name))) ∧ mg'.table = mg.table ∧ mg'.doc = mg.doc
@@ -160,8 +163,8 @@ theorem ms_roundtrip_names (c : NumCodec) (sa : Growth → String) {g : Graph} (
       ∧ resultSem mg = .ok rs ∧ resultSemNamed mg' (g.demes.map (·.name)) = .ok rs
       ∧ graphSem (inGenerations (normalizeProportions g)) none = .ok gs
       ∧ semEquiv sem rs = true ∧ SemRefines sem gs ∧ SemRefines rs gs := by
-  obtain ⟨mg, hfrom, hdoc⟩ := MsAcc.ms_roundtrip_accepts c sa hv hx hcs hpt hN hs htoks hc
-  obtain ⟨sem, rs, gs, h1, h2, h3, h4, h5, h6⟩ := MsRT.ms_roundtrip_sem_tame_norm c sa hv hx hcs hpt hN hs htoks hc hfrom
+  obtain ⟨mg, hfrom, hdoc⟩ := hacc
+  obtain ⟨sem, rs, gs, h1, h2, h3, h4, h5, h6⟩ := hrt mg hfrom
   have rn := names_perm_of_refines hfrom h2 (normGen_valid hv) h3 h6
   have hlenG := normGen_length g
   have cl := ToMs.clauses_of_valid hv
@@ -197,6 +200,24 @@ theorem ms_roundtrip_names (c : NumCodec) (sa : Growth → String) {g : Graph} (
       rw [hord, hlenG, ← List.length_map (f := fun d : Deme => d.name), popNames_map_apply]
     rw [List.map_map] at this
     exact this
+
+/-- Statement of `Theorems.ms_roundtrip_names`. -/
+theorem ms_roundtrip_names (c : NumCodec) (sa : Growth → String) {g : Graph} (hv : validGraph g = true)
+    (hx : MsExpressible g = true) (hcs : ConstSizes g = true) (hpt : PulsesTame g = true)
+    {N0 : Q} (hN : 0 < N0) {samples : Option (List Int)} (hs : samplesOk g samples = true)
+    {toks : List (Tok Growth)} (htoks : toMs g N0 samples = .ok toks) (hc : CodecCovers c toks) :
+    ∃ mg mg' sem rs gs, fromMs (renderG c sa toks) N0 none = .ok mg
+      ∧ fromMs (renderG c sa toks) N0 (some (g.demes.map (·.name))) = .ok mg'
+      ∧ mg'.graph = renameDemes mg.graph (nameMap (g.demes.map (·.name))) ∧ mg'.table = mg.table ∧ mg'.doc = mg.doc
+      ∧ validGraph mg'.graph = true ∧ mg'.graph.timeUnits = "generations" ∧ mg'.graph.generationTime = 1
+      ∧ (mg'.graph.demes.map (·.name)).Perm (g.demes.map (·.name))
+      ∧ (StartsSorted g = true → mg'.graph.demes.map (·.name) = g.demes.map (·.name))
+      ∧ msSem (renderG c sa toks) N0 = .ok sem
+      ∧ resultSem mg = .ok rs ∧ resultSemNamed mg' (g.demes.map (·.name)) = .ok rs
+      ∧ graphSem (inGenerations (normalizeProportions g)) none = .ok gs
+      ∧ semEquiv sem rs = true ∧ SemRefines sem gs ∧ SemRefines rs gs :=
+  ms_roundtrip_names_of c sa hv (MsAcc.ms_roundtrip_accepts c sa hv hx hcs hpt hN hs htoks hc)
+    (fun _ hfrom => MsRT.ms_roundtrip_sem_tame_norm c sa hv hx hcs hpt hN hs htoks hc hfrom)
 
 /-- Statement of `Theorems.ms_roundtrip_names_accepts`. -/
 theorem ms_roundtrip_names_accepts (c : NumCodec) (sa : Growth → String) {g : Graph} (hv : validGraph g = true)
